@@ -304,7 +304,8 @@ func (d *Decoder) readObject(typ reflect.Type, cls ClassDef) (interface{}, error
 		index, err := findField(fldName, typ)
 
 		// fmt.Printf("[%d]  >>>> start read field %s: %v, %v, %p\n", readObjectIndexCurr, fldName, vv.Type(), vv.Interface(), vv.Interface())
-		if err != nil {
+		// a Go field that cannot be set (an unexported one that happens to carry the wire name) is no counterpart either
+		if err != nil || !st.Field(index).CanSet() {
 			hlog.Debugf("%s is not found, will skip type ->p %v", fldName, typ)
 			// the stream still carries this field's value: step over it so that the following fields stay aligned
 			// (it need not be decodable: its class may be unknown here)
@@ -314,9 +315,6 @@ func (d *Decoder) readObject(typ reflect.Type, cls ClassDef) (interface{}, error
 			continue
 		}
 		fldValue := st.Field(index)
-		if !fldValue.CanSet() {
-			return nil, newCodecError("readObject", "field %s can set", fldName)
-		}
 
 		err = d.readField(fldName, fldValue)
 		if err != nil {
